@@ -31,6 +31,35 @@ def drive(exe, lines, timeout=900, max_aborts=5):
     return outs, aborts
 
 
+def conf_batched(ctx, module, cfg, recs, label, bsize=32, big=2000, size=lambda r: len(r['q'])):
+    """Function conformance with several cases per TLC state ({"b": [...]}); rejected batches are re-evaluated case by case.
+    Returns (P-rejected, I-rejected) indices into recs."""
+    batches, cur = [], []
+    for k, r in enumerate(recs):
+        if size(r) > big:
+            batches.append([k])
+            continue
+        cur.append(k)
+        if len(cur) >= bsize:
+            batches.append(cur)
+            cur = []
+    if cur:
+        batches.append(cur)
+    before = {k: ctx.cov.get(k, 0) for k in ('impl_traces', 'tlc_checked_cases')}
+    pr, ir = ucheck.conformance(ctx, module, cfg, [{'b': [recs[k] for k in b]} for b in batches], label, chunk=max(200, 12000 // bsize))
+    prej, irej = [], []
+    for rejected, out in ((pr, prej), (ir, irej)):
+        singles = [k for bi in rejected for k in batches[bi]]
+        if len(singles) > 400:
+            singles = singles[:400]
+        if singles:
+            p1, i1 = ucheck.conformance(ctx, module, cfg, [{'b': [recs[k]]} for k in singles], label + '-single')
+            out += [singles[j] for j in (p1 if out is prej else i1)]
+    for k in before:
+        ctx.cov[k] = before[k] + len(recs)
+    return sorted(set(prej)), sorted(set(irej))
+
+
 def gen(ctx):
     rnd = random.Random(ctx.seed)
     cases = []
@@ -105,8 +134,7 @@ def run(ctx):
     for k, o in done:
         if bytes(o['s']) != cases[k]:
             raise vlib.MachineryError('driver echoed a different input for case %d' % k)
-    prej, irej = ucheck.conformance(ctx, os.path.join(SPEC, 'Conf_HtmlQuote.tla'), os.path.join(SPEC, 'Conf_HtmlQuote.cfg'), recs, 'htmlquote',
-                                    chunk=12000)
+    prej, irej = conf_batched(ctx, os.path.join(SPEC, 'Conf_HtmlQuote.tla'), os.path.join(SPEC, 'Conf_HtmlQuote.cfg'), recs, 'htmlquote')
     ctx.log('TLC evaluated %d cases: P-rejected %d, I-rejected %d, aborted %d' % (len(recs), len(prej), len(irej), len(aborts)))
     for i in prej:
         o = recs[i]
